@@ -239,16 +239,21 @@ class Tr:
 
     def loop(self, st, names):
         sp = self.spec
-        if st.orelse or not isinstance(st.target, ast.Name) or ast.unparse(st.iter) != "S":
-            refuse(st, "outer loop is not `for a in S`")
-        a = st.target.id
-        if len(st.body) != 1 or not isinstance(st.body[0], ast.For):
-            refuse(st, "outer loop body is not the loop over the index list")
+        if st.orelse or not isinstance(st.target, ast.Name) or len(st.body) != 1 or not isinstance(st.body[0], ast.For):
+            refuse(st, "the image loop is not two nested for loops")
         inner = st.body[0]
-        if inner.orelse or not isinstance(inner.target, ast.Name) or ast.unparse(inner.iter) != names["ijklist"]:
-            refuse(inner, "inner loop is not over the index list")
-        ijk = inner.target.id
-        sp["atoms_outer"] = True
+        if inner.orelse or not isinstance(inner.target, ast.Name):
+            refuse(inner, "unrecognised inner loop")
+        its = (ast.unparse(st.iter), ast.unparse(inner.iter))
+        # both nestings are translated; which one the source uses decides whether images are grouped by parent
+        if its == ("S", names["ijklist"]):
+            a, ijk = st.target.id, inner.target.id
+            sp["atoms_outer"] = True
+        elif its == (names["ijklist"], "S"):
+            ijk, a = st.target.id, inner.target.id
+            sp["atoms_outer"] = False
+        else:
+            refuse(st, "the nested loops are not over the atoms of S and the index list (got %s, %s)" % its)
         dup = None
         seen = []
         for s2 in inner.body:
@@ -329,7 +334,8 @@ def generate():
            "Definition c15_shortcut : Z * Z * Z := (%d%%Z, %d%%Z, %d%%Z)." % sp["shortcut"],
            "(* [(i, j, k) for .. in range(mno[..]) ..]: loop nest outermost first, triple component k over range(mno[k]) *)",
            "Definition c15_ijklist (m0 m1 m2 : nat) : list (nat * nat * nat) :=\n  %s." % nestdef,
-           "(* for a in S: for ijk in ijklist: images are grouped by parent atom *)",
+           "(* nesting of the image loop as written: %s *)" % ("for a in S: for ijk in ijklist  (images grouped by parent atom)" if sp["atoms_outer"]
+                                                                  else "for ijk in ijklist: for a in S  (images grouped by shift, NOT by parent)"),
            "Definition c15_atoms_outer : bool := %s." % ("true" if sp["atoms_outer"] else "false"),
            "(* adup.xyz = ... element-wise: x = a.xyz[k], t = ijk[k], m = float(mno[k]) *)",
            "Definition c15_coord {T : Type} (O : ops T) (x t m : T) : T := %s." % sp["coord"],
